@@ -15,7 +15,7 @@ CONSTANTS MaxLen, OutFile
 
 Kinds == {"NEW_TRANSACTION", "REVERTED_TRANSACTION", "SET_METADATA/ACCOUNT", "SET_METADATA/TRANSACTION",
           "DELETE_METADATA/ACCOUNT", "DELETE_METADATA/TRANSACTION"}
-TimeClasses == {"micro", "far-past", "far-future", "offset"}
+TimeClasses == {"micro", "far-past", "far-future", "offset", "year-9999-edge"}
 AmountClasses == {"small", "over-64-bit", "2^200"}
 MetaClasses == {"empty", "unicode", "quotes-and-escapes"}
 KeyClasses == {"none", "255-chars", "escapes"}
@@ -26,6 +26,9 @@ Entries == [kind : Kinds, time : TimeClasses, amount : AmountClasses, meta : Met
 \* For the DELETE_METADATA kinds the meta class is the shape of the DELETED KEY (plain / unicode / needing JSON escapes);
 \* the key class is the shape of the idempotency key and of the reference.
 Relevant(e) ==
+    \* the last instants of year 9999 as the API accepts them (rounded to microseconds): a transaction timestamp only,
+    \* the date of a log entry is produced by the engine
+    /\ (e.time = "year-9999-edge" => e.kind \in {"NEW_TRANSACTION", "REVERTED_TRANSACTION"})
     /\ (e.kind \notin {"NEW_TRANSACTION", "REVERTED_TRANSACTION"} => e.amount = "small")
     /\ (e.kind \notin {"SET_METADATA/TRANSACTION", "DELETE_METADATA/TRANSACTION", "REVERTED_TRANSACTION"} => e.id = "small")
 Pool == {e \in Entries : Relevant(e)}
